@@ -540,8 +540,8 @@ def run(rep, tier, seed):
         names, init_limit, max_states, gcap = configs.SMALL + ['crossing.7x7', 'four_rooms.7x7', 'memory_four_rooms.7x7',
                                                                'keydoor.7x7'], 150, 6000, 3
     else:
-        names, init_limit, max_states, gcap = configs.SMALL + configs.MEDIUM, 300, 8000, 8
-    rs, rt = dyn.run_reach(rep, names, init_limit, max_states, make_hooks, replay, 'reward_termination', group_cap=gcap, lineages=2 if tier == 'quick' else 3)
+        names, init_limit, max_states, gcap = configs.SMALL + ['crossing.7x7', 'four_rooms.7x7', 'memory_four_rooms.7x7', 'keydoor.7x7'], 200, 8000, 4
+    rs, rt = dyn.run_reach(rep, names, init_limit, max_states, make_hooks, replay, 'reward_termination', group_cap=gcap, lineages=2)
     rep.assume('distance rewards are only evaluated on triples with exactly one target object, the memory reward only with a '
                'beacon present (documented preconditions); agent never on a movement-blocking cell (C08)')
     return rep.finish(
